@@ -40,7 +40,46 @@ TABLE = {
 }
 
 
+# property -> (rule id, [(class or None, function, parameter)], what goes wrong): parameters that callers may pass as one-shot iterables
+PARAMS = {
+    'C07': ('R07.9', [('Chain', 'force', 'tasks'), ('MultiChain', 'force', 'tasks')],
+            'the tasks named by the caller are only seen by the first consumer: later ones (the closure of dependants, the other member chains) force nothing'),
+    'C13': ('R13.8', [('MultiChain', 'force', 'tasks')],
+            'only the first member chain sees the tasks to force; the others keep serving their stored results'),
+    'C17': ('R17.7', [(None, 'parallel_map', 'iterable'), (None, 'chunked', 'iterable'), (None, 'parallel_starmap', 'iterable')],
+            'elements taken by the first consumer are never mapped (a generator input loses its first element / comes back empty)'),
+}
+
+
+def run_params(A, R, prop):
+    if prop not in PARAMS:
+        return
+    from .common import consumed_more_than_once, where
+    from ..model import src
+    from ..report import key_of
+    rid, specs, why = PARAMS[prop]
+    R.rule(rid, 'an iterable handed in by the caller (it may be a generator) is consumed at most once', floor=0)
+    n = 0
+    for cn, fn, pn in specs:
+        if cn is None:
+            funcs = [f for f in A.prog.functions.values() if f.name == fn and f.cls is None and f.parent is None]
+        else:
+            ci = A.prog.find_cls(cn)
+            funcs = [ci.methods[fn]] if ci is not None and fn in ci.methods else []
+        for f in funcs:
+            if pn not in f.params:
+                continue
+            n += 1
+            tw = consumed_more_than_once(A, f, pn)
+            R.check(tw is None, rid, f'{f.short}: `{pn}`', key_of('param-consumed-twice', f.short, pn), 'one pass (or materialised first)',
+                    f'`{pn}` is consumed by `{src(tw[1])[:50] if tw else ""}` {"once per iteration of `" + src(tw[0]).splitlines()[0][:50] + "`" if tw and hasattr(tw[0], "body") else "after `" + (src(tw[0])[:50] if tw else "") + "`"}: '
+                    f'when the caller passes a generator, {why}', where=where(f, tw[1]) if tw else where(f))
+    if n == 0:
+        R.ok(rid, 'parameters', 'no such parameter left', where='-')
+
+
 def run(A, R, prop):
+    run_params(A, R, prop)
     if prop not in TABLE:
         return
     rid, specs, why = TABLE[prop]
@@ -57,3 +96,20 @@ def run(A, R, prop):
     n = check_iteration_independence(A, R, rid, funcs, why)
     if n == 0:
         R.ok(rid, 'loops', 'no loop left in the anchored functions', where='-')
+    # the same functions: a one-shot iterator (generator expression, map / zip / filter object) is not consumed twice
+    from .common import oneshot_reuse, where
+    from ..model import src
+    from ..report import key_of
+    allf = []
+    for f in funcs:
+        allf.append(f)
+        stack = list(f.nested.values())
+        while stack:
+            g = stack.pop()
+            allf.append(g)
+            stack.extend(g.nested.values())
+    for f in allf:
+        for name, dnode, site in oneshot_reuse(A, f):
+            R.violation(rid, f'{f.short}: one-shot iterator `{name}`', key_of('oneshot-reuse', f.short, name),
+                        f'`{src(dnode)[:70]}` creates a one-shot iterator that `{src(site)[:60] if not hasattr(site, "iter") or hasattr(site, "body") else "a comprehension"}` consumes more than once '
+                        f'(inside a loop it was created outside of, or at two places): from the second time on it is empty, so {why}', where=where(f, dnode))
